@@ -139,12 +139,24 @@ theorem sign_issued_webhooks {cfg : Cfg} {t : Token} {c : CSR} {ud : Option User
 
 /-! ## 1. names_exact -/
 
+theorem tpl_not_iid (cfg : Cfg) (t : Token) (h : ∀ d, cfg.prov ≠ .aws d) : (authorize cfg t).tpl ≠ .iid := by
+  cases hp : cfg.prov with
+  | aws d => exact absurd hp (h d)
+  | jwk => simp only [authorize, hp]; split <;> simp
+  | x5c => simp only [authorize, hp]; split <;> simp
+  | oidc a => simp only [authorize, hp]; split <;> (try split) <;> simp
+  | nebula => simp only [authorize, hp]; split <;> simp
+  | k8ssa => simp only [authorize, hp]; split <;> simp
+  | acme => simp only [authorize, hp]; split <;> simp
+  | scep => simp only [authorize, hp]; split <;> simp
+
 theorem finalCert_leafish (cfg : Cfg) (p : Plan) (c : CSR) (u : Option UserData) (l : List San)
-    (hs : p.data.sans = createSANs l) (ht : p.tpl ≠ .admin) :
+    (hs : p.data.sans = createSANs l) (ht : p.tpl ≠ .admin) (hi : p.tpl ≠ .iid) :
     (finalCert cfg p c u).names = createSANs l ∧ (finalCert cfg p c u).cn = p.data.cn ∧
     (finalCert cfg p c u).key = c.key := by
   cases htpl : p.tpl with
   | admin => exact absurd htpl ht
+  | iid => exact absurd htpl hi
   | leaf =>
     have := applyLeaf_names { p.data with user := u } c l hs
     simp only [finalCert, applyTemplate, htpl]
@@ -165,6 +177,7 @@ theorem names_exact (cfg : Cfg) (t : Token) (c : CSR) (ud : Option UserData) (en
   obtain ⟨_, hcn, hsans, hadm⟩ := authorize_sans cfg t hp
   obtain ⟨_, _, _, rfl⟩ := sign_issued h
   have := finalCert_leafish cfg (authorize cfg t) c (templateUser cfg ud) (effSans t) hsans hadm
+    (tpl_not_iid cfg t (by intro d; rcases hp with h | h <;> simp [h]))
   rw [hcn] at this
   exact this
 
@@ -259,7 +272,7 @@ theorem issued_request_shape (cfg : Cfg) (t : Token) (c : CSR) (ud : Option User
   obtain ⟨hs, hv, _, _⟩ := sign_issued h
   have hcnf : (authorize cfg t).cnf = t.cnf := by rcases hp with h | h <;> simp [authorize, h]
   simp only [reqValid, hsans, hcnf, Bool.and_eq_true] at hv
-  obtain ⟨⟨⟨⟨hfp, _⟩, hk⟩, hsv⟩, _⟩ := hv
+  obtain ⟨⟨⟨⟨⟨hfp, _⟩, hk⟩, hsv⟩, _⟩, _⟩ := hv
   refine ⟨hs, hk, hfp, ?_⟩
   intro k
   simp only [sansValid, Bool.and_eq_true, kindValid, Bool.or_eq_true, List.isEmpty_iff] at hsv
@@ -293,6 +306,7 @@ theorem oidc_nonadmin_names (cfg : Cfg) (t : Token) (c : CSR) (ud : Option UserD
   have ht : (authorize cfg t).tpl ≠ .admin := by
     simp only [authorize, hp]; split <;> simp
   obtain ⟨h1, h2, h3⟩ := finalCert_leafish cfg (authorize cfg t) c (templateUser cfg ud) (oidcSans t) hs ht
+    (tpl_not_iid cfg t (by intro d; simp [hp]))
   refine ⟨h1, by rw [h2, hc], h3, ?_⟩
   intro n hn
   rw [h1] at hn
@@ -397,7 +411,7 @@ theorem ext_once (cfg : Cfg) (t : Token) (c : CSR) (ud : Option UserData) (enc :
 /-- with the extension disabled and no template configured the certificate has no extension
     from the alphabet at all (in particular none with the provisioner OID) -/
 theorem ext_disabled_absent (cfg : Cfg) (t : Token) (c : CSR) (ud : Option UserData) (enc : Enc) (crt : Cert)
-    (hd : cfg.extDisabled = true) (ht : cfg.hasTemplate = false)
+    (hd : cfg.extDisabled = true) (ht : cfg.hasTemplate = false) (hna : ∀ d, cfg.prov ≠ .aws d)
     (h : sign cfg t c ud enc = .issued crt) : crt.exts = [] := by
   obtain ⟨_, _, _, rfl⟩ := sign_issued h
   have : (authorize cfg t).tpl = .leaf ∨ (authorize cfg t).tpl = .admin := by
@@ -409,16 +423,21 @@ theorem ext_disabled_absent (cfg : Cfg) (t : Token) (c : CSR) (ud : Option UserD
     | k8ssa => simp [authorize, hp, ht]
     | acme => simp [authorize, hp, ht]
     | scep => simp [authorize, hp, ht]
+    | aws d => exact absurd hp (hna d)
   rcases this with h1 | h1 <;> simp [finalCert, modifyExt, hd, applyTemplate, h1, applyLeaf, applyAdmin]
 
-/-- **extDisabled_iff.** The extension is disabled exactly when the *effective*
-    `disableSmallstepExtensions` claim is true: the provisioner's own value if it has one, else the
-    authority-level value, else false. -/
-theorem extDisabled_iff (cfg : Cfg) :
+theorem inForce_direct (c : BoolClaims) (h : c.adminForm = false) : c.inForce = c := by
+  simp [BoolClaims.inForce, h]
+
+/-- **extDisabled_iff.** For a provisioner in its configured (ca.json) form the extension is
+    disabled exactly when the *effective* `disableSmallstepExtensions` claim is true: the
+    provisioner's own value if it has one, else the authority-level value, else false. -/
+theorem extDisabled_iff (cfg : Cfg) (hd : cfg.provClaims.adminForm = false) :
     cfg.extDisabled = true ↔
       cfg.provClaims.disableExt = some true ∨
       (cfg.provClaims.disableExt = none ∧ cfg.authClaims.disableExt = some true) := by
   unfold Cfg.extDisabled effClaim
+  rw [inForce_direct _ hd]
   cases cfg.provClaims.disableExt with
   | some b => cases b <;> simp
   | none =>
@@ -426,10 +445,37 @@ theorem extDisabled_iff (cfg : Cfg) :
     | some b => cases b <;> simp
     | none => simp
 
+/-- **extDisabled_adminForm.** For a provisioner that went through the admin-database form
+    (`claimsToLinkedca` / `claimsToCertificates`, plain booleans): the authority-level value is
+    inherited only when the provisioner has no boolean claim at all; as soon as it sets one of
+    them, an unset `disableSmallstepExtensions` has become an explicit `false`. -/
+theorem extDisabled_adminForm (cfg : Cfg) (ha : cfg.provClaims.adminForm = true) :
+    cfg.extDisabled = true ↔
+      cfg.provClaims.disableExt = some true ∨
+      (cfg.provClaims.disableRenewal = none ∧ cfg.provClaims.disableExt = none ∧
+        cfg.provClaims.allowAfterExpiry = none ∧ cfg.authClaims.disableExt = some true) := by
+  unfold Cfg.extDisabled effClaim BoolClaims.inForce
+  obtain ⟨pc⟩ : ∃ pc, pc = cfg.provClaims := ⟨_, rfl⟩
+  cases h1 : cfg.provClaims.disableRenewal <;> cases h2 : cfg.provClaims.disableExt <;>
+    cases h3 : cfg.provClaims.allowAfterExpiry <;> cases h4 : cfg.authClaims.disableExt <;>
+    simp [ha] <;> (try cases ‹Bool›) <;> simp_all
+
+/-- the difference, as a witness: the authority disables the extension, the provisioner only sets
+    `disableRenewal`; configured directly it inherits (no extension), loaded from the admin
+    database it does not (extension present) -/
+example :
+    let tok : Token := ⟨⟨.dns, s "a", s "a"⟩, [], .absent, none, none, none, []⟩
+    let csr : CSR := ⟨true, [], [], [], [], [], 1, true, []⟩
+    sign ⟨.jwk, false, ⟨none, some true, none, false⟩, ⟨some true, none, none, false⟩, ⟨0, [1]⟩⟩ tok csr none ⟨true, true, none, none⟩
+      = .issued ⟨s "a", [s "a"], [], [], [], 1, []⟩ ∧
+    sign ⟨.jwk, false, ⟨none, some true, none, false⟩, ⟨some true, none, none, true⟩, ⟨0, [1]⟩⟩ tok csr none ⟨true, true, none, none⟩
+      = .issued ⟨s "a", [s "a"], [], [], [], 1, [⟨0, [1]⟩]⟩ := by decide
+
 /-- **ext_once_claims.** `ext_once` in terms of the configuration: unless the provisioner sets
     `disableSmallstepExtensions: true`, or leaves it unset while the authority sets it to true, every
     issued certificate carries exactly one, genuine, provisioner extension — whatever the other
-    boolean claims (`disableRenewal`, `allowRenewalAfterExpiry`) are at either level. -/
+    boolean claims (`disableRenewal`, `allowRenewalAfterExpiry`) are at either level, and whichever
+    form the provisioner is kept in. -/
 theorem ext_once_claims (cfg : Cfg) (t : Token) (c : CSR) (ud : Option UserData) (enc : Enc) (crt : Cert)
     (hg : cfg.gen.isProv = true)
     (hc : cfg.provClaims.disableExt = some false ∨
@@ -440,30 +486,50 @@ theorem ext_once_claims (cfg : Cfg) (t : Token) (c : CSR) (ud : Option UserData)
   cases hd : cfg.extDisabled with
   | false => rfl
   | true =>
-    rcases (extDisabled_iff cfg).mp hd with h1 | ⟨h1, h2⟩
-    · rcases hc with hc | ⟨hc, _⟩ <;> rw [h1] at hc <;> cases hc
-    · rcases hc with hc | ⟨_, hc⟩
-      · rw [h1] at hc; cases hc
-      · exact absurd h2 hc
+    cases hf : cfg.provClaims.adminForm with
+    | false =>
+      rcases (extDisabled_iff cfg hf).mp hd with h1 | ⟨h1, h2⟩
+      · rcases hc with hc | ⟨hc, _⟩ <;> rw [h1] at hc <;> cases hc
+      · rcases hc with hc | ⟨_, hc⟩
+        · rw [h1] at hc; cases hc
+        · exact absurd h2 hc
+    | true =>
+      rcases (extDisabled_adminForm cfg hf).mp hd with h1 | ⟨_, h1, _, h2⟩
+      · rcases hc with hc | ⟨hc, _⟩ <;> rw [h1] at hc <;> cases hc
+      · rcases hc with hc | ⟨_, hc⟩
+        · rw [h1] at hc; cases hc
+        · exact absurd h2 hc
 
-/-- the claims that are not `disableSmallstepExtensions` never influence a sign request -/
+/-- `sign` looks at the configuration only through the provisioner type, the template flag, the
+    genuine extension and the effective extension claim -/
+theorem sign_congr (cfg cfg' : Cfg) (t : Token) (c : CSR) (ud : Option UserData) (enc : Enc)
+    (h1 : cfg.prov = cfg'.prov) (h2 : cfg.hasTemplate = cfg'.hasTemplate) (h3 : cfg.gen = cfg'.gen)
+    (h4 : cfg.extDisabled = cfg'.extDisabled) : sign cfg t c ud enc = sign cfg' t c ud enc := by
+  have ha : authorize cfg t = authorize cfg' t := by simp [authorize, h1, h2]
+  have hu : templateUser cfg ud = templateUser cfg' ud := by simp [templateUser, h2]
+  unfold sign finalCert
+  rw [ha, hu, h3, h4]
+
+/-- the claims that are not `disableSmallstepExtensions` never influence a sign request (for a
+    provisioner in its configured form) -/
 theorem other_claims_irrelevant (cfg : Cfg) (a b a' b' : Option Bool) (t : Token) (c : CSR)
-    (ud : Option UserData) (enc : Enc) :
-    sign { cfg with authClaims := ⟨a, cfg.authClaims.disableExt, b⟩,
-                    provClaims := ⟨a', cfg.provClaims.disableExt, b'⟩ } t c ud enc
+    (ud : Option UserData) (enc : Enc) (hd : cfg.provClaims.adminForm = false) :
+    sign { cfg with authClaims := ⟨a, cfg.authClaims.disableExt, b, cfg.authClaims.adminForm⟩,
+                    provClaims := ⟨a', cfg.provClaims.disableExt, b', false⟩ } t c ud enc
     = sign cfg t c ud enc := by
-  rfl
+  apply sign_congr <;> try rfl
+  simp [Cfg.extDisabled, BoolClaims.inForce, hd]
 
 /-- authority-level `disableRenewal: true` alone does not remove the extension; authority-level
     `disableSmallstepExtensions: true` does, unless the provisioner says false -/
 example :
     let tok : Token := ⟨⟨.dns, s "a", s "a"⟩, [], .absent, none, none, none, []⟩
     let csr : CSR := ⟨true, [], [], [], [], [], 1, true, []⟩
-    sign ⟨.jwk, false, ⟨some true, none, none⟩, noClaims, ⟨0, [1]⟩⟩ tok csr none ⟨true, true, none, none⟩
+    sign ⟨.jwk, false, ⟨some true, none, none, false⟩, noClaims, ⟨0, [1]⟩⟩ tok csr none ⟨true, true, none, none⟩
       = .issued ⟨s "a", [s "a"], [], [], [], 1, [⟨0, [1]⟩]⟩ ∧
-    sign ⟨.jwk, false, ⟨none, some true, none⟩, noClaims, ⟨0, [1]⟩⟩ tok csr none ⟨true, true, none, none⟩
+    sign ⟨.jwk, false, ⟨none, some true, none, false⟩, noClaims, ⟨0, [1]⟩⟩ tok csr none ⟨true, true, none, none⟩
       = .issued ⟨s "a", [s "a"], [], [], [], 1, []⟩ ∧
-    sign ⟨.jwk, false, ⟨none, some true, none⟩, ⟨none, some false, none⟩, ⟨0, [1]⟩⟩ tok csr none ⟨true, true, none, none⟩
+    sign ⟨.jwk, false, ⟨none, some true, none, false⟩, ⟨none, some false, none, false⟩, ⟨0, [1]⟩⟩ tok csr none ⟨true, true, none, none⟩
       = .issued ⟨s "a", [s "a"], [], [], [], 1, [⟨0, [1]⟩]⟩ := by decide
 
 /-- a forged extension in front of and behind another one: replaced, the rest refused as duplicate -/
@@ -548,6 +614,7 @@ theorem options_match_plan (cfg : Cfg) (t : Token) :
   | k8ssa => simp [authorize, hp, optionSource]
   | acme => simp [authorize, hp, optionSource]
   | scep => simp [authorize, hp, optionSource]
+  | aws d => simp [authorize, hp, optionSource]
 
 /-- **every_provisioner_records_itself.** Every `AuthorizeSign` implementation in
     authority/provisioner that returns an option list at all (i.e. every provisioner type that can
@@ -636,6 +703,7 @@ theorem nebula_default_names (cfg : Cfg) (t : Token) (c : CSR) (ud : Option User
   have h2 : (authorize cfg t).data.cn = t.sub.raw := by simp [authorize, hp]
   have h3 : (authorize cfg t).tpl ≠ .admin := by simp only [authorize, hp]; split <;> simp
   have := finalCert_leafish cfg (authorize cfg t) c (templateUser cfg ud) (nebCreds t) h1 h3
+    (tpl_not_iid cfg t (by intro d; simp [hp]))
   rw [h2] at this
   exact this
 
@@ -718,6 +786,7 @@ theorem nebula_names_certified (cfg : Cfg) (t : Token) (c : CSR) (ud : Option Us
   have h2 : (authorize cfg t).data.cn = t.sub.raw := by simp [authorize, hp]
   have h3 : (authorize cfg t).tpl ≠ .admin := by simp only [authorize, hp]; split <;> simp
   obtain ⟨hn, hc, hk⟩ := finalCert_leafish cfg (authorize cfg t) c (templateUser cfg ud) _ h1 h3
+    (tpl_not_iid cfg t (by intro d; simp [hp]))
   refine ⟨?_, by rw [hc, h2], hk⟩
   intro n hmem
   rw [hn] at hmem
@@ -769,6 +838,93 @@ theorem k8ssa_names_from_request (cfg : Cfg) (t : Token) (c : CSR) (ud : Option 
     crt.cn = c.cn ∧ crt.key = c.key := by
   obtain ⟨_, _, _, rfl⟩ := sign_issued h
   simp [finalCert, authorize, hp, ht, applyTemplate, applyAdmin]
+
+/-! ## 7a. AWS instance identity -/
+
+/-- the names an AWS identity document validates: the internal DNS name and the private IP -/
+def awsOwn (t : Token) : List San := t.nebName.toList ++ t.nebIPs.map fun ip => ⟨.ip, ip, ip⟩
+
+/-- **aws_dcs_names.** AWS provisioner with `disableCustomSANs` (default template): an issued
+    certificate names exactly the instance's internal DNS name and private IP, whatever the CSR
+    lists; its common name is empty or the token subject; its key is the CSR's. -/
+theorem aws_dcs_names (cfg : Cfg) (t : Token) (c : CSR) (ud : Option UserData) (enc : Enc) (crt : Cert)
+    (hp : cfg.prov = .aws true) (ht : cfg.hasTemplate = false) (hown : awsOwn t ≠ [])
+    (h : sign cfg t c ud enc = .issued crt) :
+    crt.names = createSANs (awsOwn t) ∧ (crt.cn = [] ∨ crt.cn = t.sub.raw) ∧ crt.key = c.key := by
+  obtain ⟨_, hv, _, rfl⟩ := sign_issued h
+  have hne : (createSANs (awsOwn t)).isEmpty = false := by
+    cases hl : createSANs (awsOwn t) with
+    | nil =>
+      have := (createSANs_perm (awsOwn t)).length_eq
+      rw [hl] at this
+      simp at this
+      exact absurd (List.eq_nil_of_length_eq_zero this.symm) hown
+    | cons _ _ => rfl
+  have hcn : cnValid (.exactly t.sub.raw) c = true := by
+    simp only [reqValid, authorize, hp, Bool.and_eq_true] at hv
+    exact hv.1.1.1.1.2
+  refine ⟨?_, ?_, ?_⟩
+  · have := applyLeaf_names ({ cn := t.sub.raw, sans := createSANs (awsOwn t), user := templateUser cfg ud } : Data) c (awsOwn t) rfl
+    simp only [finalCert, applyTemplate, authorize, hp, ht, awsOwn] at this ⊢
+    simp only [awsOwn] at hne
+    simp [hne, Cert.names] at this ⊢
+    exact this
+  · simp only [finalCert, applyTemplate, authorize, hp, ht]
+    simp only [awsOwn] at hne
+    simp only [if_true, hne]
+    simp only [cnValid, Bool.or_eq_true, List.isEmpty_iff, beq_iff_eq] at hcn
+    simpa using hcn
+  · simp only [finalCert, applyTemplate, authorize, hp, ht]
+    simp only [awsOwn] at hne
+    simp [hne, applyLeaf]
+
+/-- **aws_dcs_csr_extra_refused.** … and a CSR that lists any other DNS name, another IP, an
+    e-mail address or a URI is refused. -/
+theorem aws_dcs_csr_extra_refused (cfg : Cfg) (t : Token) (c : CSR) (ud : Option UserData) (enc : Enc)
+    (hp : cfg.prov = .aws true)
+    (hx : (∃ v ∈ c.dns, v ∉ ofKind .dns t.nebName.toList) ∨ (∃ v ∈ c.ips, v ∉ t.nebIPs) ∨
+          c.emails ≠ [] ∨ c.uris ≠ []) :
+    ∃ st, sign cfg t c ud enc = .refused st := by
+  apply refused_of_reqValid_false
+  have : awsValid (ofKind .dns t.nebName.toList) t.nebIPs c = false := by
+    unfold awsValid
+    rcases hx with ⟨v, hv, hn⟩ | ⟨v, hv, hn⟩ | he | hu
+    · have : c.dns.all (fun x => (ofKind .dns t.nebName.toList).contains x) = false := by
+        rw [List.all_eq_false]; exact ⟨v, hv, by simpa using hn⟩
+      rw [this]; simp
+    · have := kindValid_false t.nebIPs c.ips (List.ne_nil_of_mem hv) (setEq_false_of_extra _ _ v hv hn)
+      simp [this]
+    · have : kindValid [] c.emails = false := by
+        cases hl : c.emails with
+        | nil => exact absurd hl he
+        | cons a as => simp [kindValid, setEq]
+      simp [this]
+    · have : kindValid [] c.uris = false := by
+        cases hl : c.uris with
+        | nil => exact absurd hl hu
+        | cons a as => simp [kindValid, setEq]
+      simp [this]
+  simp [reqValid, authorize, hp, this]
+
+/-- without `disableCustomSANs` the names are the CSR's (trust on first use; recorded as a fact) -/
+theorem aws_custom_names_from_request (cfg : Cfg) (t : Token) (c : CSR) (ud : Option UserData) (enc : Enc) (crt : Cert)
+    (hp : cfg.prov = .aws false) (ht : cfg.hasTemplate = false)
+    (h : sign cfg t c ud enc = .issued crt) :
+    crt.dns = c.dns ∧ crt.ips = c.ips ∧ crt.emails = c.emails ∧ crt.uris = c.uris ∧ crt.cn = c.cn := by
+  obtain ⟨_, _, _, rfl⟩ := sign_issued h
+  simp [finalCert, applyTemplate, authorize, hp, ht, applyAdmin]
+
+/-! ## 7b. the HTTP handler -/
+
+/-- **http_sign_issued.** A certificate in a 201 answer of POST /1.0/sign is a certificate `request`
+    issues: every theorem about `request` / `sign` above holds for what the handler returns; and the
+    handler adds only the CSR-signature check in front (400). -/
+theorem http_sign_issued (cfg : Cfg) (t : Token) (c : CSR) (ud : Option UserData) (enc : Enc) (crt : Cert)
+    (h : httpSign cfg t c ud enc = .issued crt) : request cfg t c ud enc = .issued crt ∧ c.sigOK = true := by
+  unfold httpSign at h
+  split at h
+  · cases h
+  · rename_i hs; exact ⟨h, by simpa using hs⟩
 
 /-! ## 8. registration-authority mode -/
 
@@ -870,7 +1026,7 @@ example :
 
 /-- ext_disabled_absent: hypotheses satisfiable -/
 example :
-    sign ⟨.jwk, false, noClaims, ⟨none, some true, none⟩, ⟨0, [1]⟩⟩ ⟨⟨.dns, s "a", s "a"⟩, [], .absent, none, none, none, []⟩
+    sign ⟨.jwk, false, noClaims, ⟨none, some true, none, false⟩, ⟨0, [1]⟩⟩ ⟨⟨.dns, s "a", s "a"⟩, [], .absent, none, none, none, []⟩
       ⟨true, [], [], [], [], [], 1, true, [⟨0, [66]⟩]⟩ (some ⟨[⟨0, [67]⟩], 5, true⟩) ⟨true, true, none, none⟩
     = .issued ⟨s "a", [s "a"], [], [], [], 1, []⟩ := by decide
 
